@@ -6,6 +6,7 @@ import HdVerif.Proofs.VolumeTie
 import HdVerif.Proofs.VolumeAccess
 import HdVerif.Proofs.VolumeArgs
 import HdVerif.Proofs.VolumeLabels
+import HdVerif.Proofs.VolumeOrientAll
 /-! # C08  Volume operations never move a voxel in physical space
 
 Property theorems only (helper lemmas: `Proofs/Volume.lean`; model: `Model/Volume.lean`).
@@ -798,6 +799,19 @@ theorem random_crop_spec (g : Geom) (c0 c1 c2 s0 s1 s2 : Int)
     exact getitemG_three AxMap.size g _ _ _ r0 r1 r2
   · simp [remapSrc]
 
+/-- **random_spatial_crop with a requested shape of other than three entries** (the source zips the request with the spatial
+shape and does not insist on three entries, unlike the sibling to-shape methods): entries beyond the third are never looked
+at; a request of two entries crops the first two axes — for every value the generator may return — and leaves the third axis
+as it is (shape `(c0, c1, n2)`, index map `(s0 + j0, s1 + j1, j2)`). -/
+theorem random_crop_other_lengths (g : Geom) :
+    (∀ c0 c1 c2 rest draws, randomCropG AxMap.size g (c0 :: c1 :: c2 :: rest) draws = randomCropG AxMap.size g [c0, c1, c2] draws) ∧
+    (∀ c0 c1 s0 s1, (1 ≤ c0 ∧ c0 ≤ g.n0 ∧ 0 ≤ s0 ∧ s0 ≤ g.n0 - c0) → (1 ≤ c1 ∧ c1 ≤ g.n1 ∧ 0 ≤ s1 ∧ s1 ≤ g.n1 - c1) →
+      ∃ r, randomCropG AxMap.size g [c0, c1] [s0, s1] = .ok r ∧ r.1.n0 = c0 ∧ r.1.n1 = c1 ∧ r.1.n2 = g.n2 ∧
+        ∀ j, r.2 j = ⟨s0 + j.i0, s1 + j.i1, j.i2⟩) := by
+  refine ⟨fun c0 c1 c2 rest draws => randomCropG_ignores_extra AxMap.size g c0 c1 c2 rest draws, fun c0 c1 s0 s1 h0 h1 => ?_⟩
+  refine ⟨_, randomCropG_two AxMap.size g c0 c1 s0 s1 h0 h1, rfl, rfl, rfl, fun j => ?_⟩
+  simp [remapSrc]
+
 /-- a requested size beyond the axis is refused (ValueError) whatever would be drawn -/
 theorem random_crop_refuses_larger (c n s : Int) (h : n < c) : randomCropAxis c n s = .error .value :=
   randomCropAxis_refuses c n s h
@@ -827,6 +841,39 @@ the missing axis is regenerated, T9m), every axis not listed keeps its place, li
 theorem random_permute_spec (axes drawn : List Int) (hv : randomAxesOk axes = true)
     (hr : isRearrangement axes drawn = true) : randomPermuteGood axes drawn = true :=
   randomPermute_good hv hr
+
+/-! ## patient orientation of EVERY geometry (rotated ones included) -/
+
+/-- **The rule of `get_closest_patient_orientation`, for every affine**: column 0 is given the patient axis (row) of its
+largest entry in magnitude, column 1 the row of its largest entry among the rows still free, column 2 the remaining row — the
+three rows are distinct —, and each letter is the positive or negative direction of its row according to the sign of that
+entry.  Consequently the answer is always one of the 48 orientations. -/
+theorem closest_orientation_is_greedy (g : Geom) :
+    closest g = (dirOf g.c0 (closestRows g).1, dirOf g.c1 (closestRows g).2.1, dirOf g.c2 (closestRows g).2.2) ∧
+    (∀ x, absR (g.c0.get x) ≤ absR (g.c0.get (closestRows g).1)) ∧
+    (closestRows g).2.1 ≠ (closestRows g).1 ∧
+    (∀ x, x ≠ (closestRows g).1 → absR (g.c1.get x) ≤ absR (g.c1.get (closestRows g).2.1)) ∧
+    (closestRows g).2.2 ≠ (closestRows g).1 ∧ (closestRows g).2.2 ≠ (closestRows g).2.1 ∧
+    closest g ∈ allOrients :=
+  let h := closestRows_greedy g
+  ⟨closest_eq_rows g, h.1, h.2.1, h.2.2.1, h.2.2.2.1, h.2.2.2.2, closest_mem_allOrients g⟩
+
+/-- **`to_patient_orientation` on every geometry** — any rotation, any spacing, any shape, PATIENT coordinate system: each of
+the 48 requests is accepted; output axis `k` is input axis `q_k` (a permutation of the axes), reversed (`f_k`) or not, and the
+letter `get_closest_patient_orientation` gave input axis `q_k` — its opposite when the axis is reversed — is the requested
+letter: the result is oriented as close to the request as permutations and flips of THIS volume's axes allow by the code's own
+rule.  No voxel moves (`op_preserves_position`, `rearranging_op_same_partial_map` hold for it as for every operation). -/
+theorem toPatientOrientation_every_geometry (g : Geom) (des : Orient) (hd : des ∈ allOrients) (hp : g.Pos) :
+    ∃ r q, ∃ f0 f1 f2 : Bool, (SOp.toOrientation (orientChars des)).applyGeom .patient g = .ok r ∧ PermValid q ∧
+      r.1.c0 = V3.smul (if f0 then -1 else 1) (g.col q.1) ∧ r.1.c1 = V3.smul (if f1 then -1 else 1) (g.col q.2.1) ∧
+      r.1.c2 = V3.smul (if f2 then -1 else 1) (g.col q.2.2) ∧
+      (if f0 then (orientGet (closest g) q.1).opp else orientGet (closest g) q.1) = des.1 ∧
+      (if f1 then (orientGet (closest g) q.2.1).opp else orientGet (closest g) q.2.1) = des.2.1 ∧
+      (if f2 then (orientGet (closest g) q.2.2).opp else orientGet (closest g) q.2.2) = des.2.2 ∧
+      (∀ j, r.1.pos j = g.pos (r.2 j)) := by
+  obtain ⟨r, q, f0, f1, f2, hr, hq, c0, c1, c2, e0, e1, e2⟩ := toPatientOrientation_all AxMap.size hd hp
+  have hr' : (SOp.toOrientation (orientChars des)).applyGeom .patient g = .ok r := hr
+  exact ⟨r, q, f0, f1, f2, hr', hq, c0, c1, c2, e0, e1, e2, fun j => op_preserves_position .patient g _ r hp hr' j⟩
 
 /-! ## channel descriptors over histories -/
 
@@ -869,6 +916,12 @@ theorem getitem_refuses_foreign_items (g : Geom) (items : List Item) :
   ⟨fun _ h => getitemG_no_foreign AxMap.size h, fun rest hl => getitemG_foreign_first AxMap.size g rest hl⟩
 
 /-! ## non-vacuity (round 2) -/
+
+/-- a rotated geometry (3-4-5 rotation about z, anisotropic): scaled orthogonal, closest orientation A L H -/
+def gRot : Geom :=
+  { c0 := ⟨3 / 5, -4 / 5, 0⟩, c1 := ⟨2 * (4 / 5), 2 * (3 / 5), 0⟩, c2 := ⟨0, 0, 3 / 2⟩, t := ⟨1, 2, 3⟩, n0 := 2, n1 := 3, n2 := 4 }
+example : gRot.Orth ∧ gRot.Pos ∧ closest gRot = (.A, .L, .H) ∧ (Dir.F, Dir.R, Dir.A) ∈ allOrients ∧
+    ((SOp.toOrientation ['F', 'R', 'A']).applyGeom .patient gRot).toBool = true := by decide +kernel
 example : ChanOk v0 ∧ labels v0 [1, 2] = [(0, 1), (1, 2)] := ⟨⟨rfl, by decide⟩, by decide +kernel⟩
 example : (match getitemG AxMap.size g0 [.int 1, .foreign] with | .error e => e == .type | .ok _ => false) = true ∧
     (match getitemG AxMap.size g0 [.int 7, .foreign] with | .error e => e == .index | .ok _ => false) = true := by
@@ -904,6 +957,7 @@ example : accSpacing sq0 g0.entry g0.dim = [3 / 2, 1 / 2, 2] ∧ accPixelSpacing
   refine ⟨?_, ?_, ?_, ?_⟩ <;>
     norm_num [accSpacing, accPixelSpacing, accDirectionCosines, Geom.entry, Geom.dim, g0, sq0, Geom.leftHanded, Geom.triple,
       V3.cross, V3.dot]
+example : (randomCropG AxMap.size g0 [2, 3] [2, 0]).toBool = true ∧ (randomCropG AxMap.size g0 [2, 3, 1, 9] [2, 0, 4]).toBool = true := by decide +kernel
 example : (randomCropG AxMap.size g0 [2, 3, 1] [2, 0, 4]).toBool = true ∧ (randomFlipG AxMap.size g0 [2, 0] [1, 0]).toBool = true ∧
     randomAxesOk [2, 0] = true ∧ isRearrangement [2, 0] [0, 2] = true ∧ randomPermuteList [2, 0] [2, 0] = .ok [2, 1, 0] := by
   decide +kernel
